@@ -2,7 +2,7 @@
    The comparison operator and the constant of every limit check are GENERATED from the source (Gen/Sites.v,
    Gen/Consts.v); these theorems pin them to the consensus values, so '>' turned into '>=' or a changed
    constant in the C++ breaks the proofs below. Numeric operand sizes: see also C18_range_of_length. *)
-From BV Require Import Base ScriptNum Script Interp Session EvalSpec LimitProofs ScriptNumProofs.
+From BV Require Import Base ScriptNum Script Interp Session EvalSpec LimitProofs ScriptNumProofs Configure PushOnlyProofs.
 From BV.Gen Require Import Consts Sites.
 Local Open Scope Z_scope.
 
@@ -46,9 +46,18 @@ Theorem C10_opcount_exceeded : forall e pc opcode pc' local,
 Proof. exact (opcount_exceeded low_s c). Qed.
 End Steps.
 
+(* the initial witness stack (BIP141 / BIP342), checked when the session is set up: no item above 520 bytes in segwit v0 and tapscript, at most
+   1000 items in tapscript, nothing for a legacy session - exactly *)
+Theorem C10_witness_stack_limits : forall sigver stack,
+  witness_limits_violation sigver stack = None <->
+  ((sigver = SV_WITNESS_V0 \/ sigver = SV_TAPSCRIPT) ->
+   Forall (fun it => zlen it <= 520) stack /\ (sigver = SV_TAPSCRIPT -> (length stack <= 1000)%nat)).
+Proof. exact witness_limits_iff. Qed.
+
 Print Assumptions C10_guards.
 Print Assumptions C10_script_size.
 Print Assumptions C10_push_exceeded.
 Print Assumptions C10_stack_bound.
 Print Assumptions C10_opcount_exceeded.
 Print Assumptions C10_operand_range.
+Print Assumptions C10_witness_stack_limits.
